@@ -81,6 +81,30 @@ fn arb_message(w: &World, rng: &mut Rng) -> iroh_docs::sync::ProtocolMessage {
     build_message(w, &parts, &|_| [0xAB; 32]).0
 }
 
+/// A frame (raw bytes, hand-encoded postcard) whose single fingerprint part carries record identifiers that are
+/// shorter than namespace + author ids (hostile peer). `init`: wrap in Init{namespace}, else Sync.
+fn bad_id_frame(w: &World, rng: &mut Rng, init: bool) -> Vec<u8> {
+    let n = rng.below(64);
+    let short: Vec<u8> = (0..n).map(|_| rng.below(256) as u8).collect();
+    let mut body: Vec<u8> = vec![];
+    if init {
+        body.push(0); // Message::Init
+        body.extend_from_slice(w.nsid().as_bytes());
+    } else {
+        body.push(1); // Message::Sync
+    }
+    body.push(1); // one part
+    body.push(0); // MessagePart::RangeFingerprint
+    body.push(n as u8);
+    body.extend_from_slice(&short);
+    body.push(n as u8);
+    body.extend_from_slice(&short);
+    body.extend_from_slice(&[7u8; 32]);
+    let mut v = (body.len() as u32).to_be_bytes().to_vec();
+    v.extend_from_slice(&body);
+    v
+}
+
 fn raw_bad(kind: &str) -> Vec<u8> {
     match kind {
         "Garbage" => {
@@ -98,7 +122,7 @@ fn raw_bad(kind: &str) -> Vec<u8> {
     }
 }
 
-const BOB_FRAMES: &[&str] = &["InitOk", "InitOk", "InitUnknown", "SyncValid", "SyncValid", "SyncArb", "Abort", "Garbage", "Oversize", "Partial", "Eof"];
+const BOB_FRAMES: &[&str] = &["InitOk", "InitOk", "InitUnknown", "InitBadId", "SyncValid", "SyncValid", "SyncArb", "SyncBadId", "Abort", "Garbage", "Oversize", "Partial", "Eof"];
 const CONDS: &[&str] = &["", "", "", "", "closed", "syncoff", "down"];
 
 /// Scripted peer against the real acceptor.
@@ -168,6 +192,12 @@ pub async fn bob_case(w: &World, rng: &mut Rng, script: &Value) -> Value {
                 let ns = if kind == "InitOk" { w.nsid() } else { w.other_ns[1].id() };
                 let _ = peer_w.write_all(&encode_frame(Frame::Init { namespace: ns, message: m }).unwrap()).await;
             }
+            "InitBadId" => {
+                let _ = peer_w.write_all(&bad_id_frame(w, rng, true)).await;
+            }
+            "SyncBadId" => {
+                let _ = peer_w.write_all(&bad_id_frame(w, rng, false)).await;
+            }
             "SyncValid" | "SyncArb" => {
                 let m = match (kind.as_str(), last_reply.take()) {
                     ("SyncValid", Some(r)) => match me.process(r, w.peers[1]).await {
@@ -234,15 +264,17 @@ pub async fn bob_case(w: &World, rng: &mut Rng, script: &Value) -> Value {
     if kept.is_none() {
         kept = handle.shutdown().await.ok();
     }
+    // the store actor must have survived whatever the peer sent (it hands back its store)
+    let alive = kept.is_some();
     let after = match kept.as_mut() {
         Some(s) => w.contents(s, w.nsid()),
         None => json!("ERR"),
     };
     json!({"ev":"Bob","accept":accept,"steps":steps,"res":res,"outcome": if outcome_ok {"ok"} else {"PANIC"},
-           "changed": before != after, "hang": hang, "ns": ns_known})
+           "changed": before != after, "hang": hang, "ns": ns_known, "alive": alive})
 }
 
-const ALICE_FRAMES: &[&str] = &["SyncValid", "SyncValid", "SyncValid", "SyncArb", "InitOk", "Abort", "Garbage", "Oversize", "Partial", "Eof"];
+const ALICE_FRAMES: &[&str] = &["SyncValid", "SyncValid", "SyncValid", "SyncArb", "SyncBadId", "InitOk", "Abort", "Garbage", "Oversize", "Partial", "Eof"];
 
 /// Scripted peer against the real initiator.
 pub async fn alice_case(w: &World, rng: &mut Rng, script: &Value) -> Value {
@@ -334,6 +366,9 @@ pub async fn alice_case(w: &World, rng: &mut Rng, script: &Value) -> Value {
                 };
                 let _ = peer_w.write_all(&encode_frame(Frame::Sync(m)).unwrap()).await;
             }
+            "SyncBadId" => {
+                let _ = peer_w.write_all(&bad_id_frame(w, rng, false)).await;
+            }
             "Abort" => {
                 let _ = peer_w.write_all(&encode_frame(Frame::Abort { reason: AbortReason::NotFound }).unwrap()).await;
             }
@@ -370,10 +405,8 @@ pub async fn alice_case(w: &World, rng: &mut Rng, script: &Value) -> Value {
         steps.push(json!({"frame":kind,"cond":cond,"reaction":reaction}));
     }
     let res = finished.map(|f| f.0).unwrap_or("HANG");
-    if kept.is_none() {
-        let _ = handle.shutdown().await;
-    }
-    json!({"ev":"Alice","start":startcond,"steps":steps,"res":res,"hang":hang})
+    let alive = if kept.is_none() { handle.shutdown().await.is_ok() } else { true };
+    json!({"ev":"Alice","start":startcond,"steps":steps,"res":res,"hang":hang,"alive":alive})
 }
 
 /// Real initiator against real acceptor through a frame-level proxy with fault / cut injection.
@@ -545,19 +578,42 @@ pub fn run(w: &World, seed: u64, rng: &mut Rng, schedules: Vec<Value>, n: usize,
     let rt = tokio::runtime::Builder::new_current_thread().enable_all().build().unwrap();
     let mut scripts: Vec<Value> = schedules.into_iter().map(|s| s["sc"].clone()).collect();
     scripts.extend(gen_scripts(rng, n));
+    // every 6th generated case runs the public connect_and_sync / handle_connection over real local endpoints
+    let nets = crate::netpair::gen(rng, n / 6);
+    scripts.extend(nets);
+    let mut net: Option<crate::netpair::Net> = None;
     for (i, sc) in scripts.iter().enumerate() {
         trace.emit(json!({"ev":"Reset","run":i,"seed":seed,"sc":sc,"ops":[]}));
         sum.add("histories", 1);
         sum.add("scripts", 1);
         let mut r2 = Rng::new(seed ^ (i as u64).wrapping_mul(0x9e3779b97f4a7c15));
         let ev = rt.block_on(async {
-            match sc["kind"].as_str().unwrap() {
-                "bob" => bob_case(w, &mut r2, sc).await,
-                "alice" => alice_case(w, &mut r2, sc).await,
-                _ => pair_case(w, &mut r2, sc).await,
+            let fut = async {
+                match sc["kind"].as_str().unwrap() {
+                    "bob" => bob_case(w, &mut r2, sc).await,
+                    "alice" => alice_case(w, &mut r2, sc).await,
+                    "net" => {
+                        if net.is_none() {
+                            net = crate::netpair::Net::new().await.ok();
+                        }
+                        match net.as_ref() {
+                            Some(nt) => crate::netpair::case(nt, w, &mut r2, sc).await,
+                            None => json!({"ev":"Stuck","kind":"net-setup"}),
+                        }
+                    }
+                    _ => pair_case(w, &mut r2, sc).await,
+                }
+            };
+            // whatever awaits inside a case: a case that does not finish is a HANG, never a stuck driver
+            match tokio::time::timeout(Duration::from_secs(40), fut).await {
+                Ok(ev) => ev,
+                Err(_) => json!({"ev":"Stuck","kind":sc["kind"]}),
             }
         });
         trace.emit(ev);
+    }
+    if let Some(nt) = net.take() {
+        rt.block_on(nt.close());
     }
     let _ = Capability::Read(w.nsid());
     iroh_docs::verif::set_clock(0);
